@@ -371,4 +371,7 @@ Definition c14_table : list (bytes * (list sx -> sx)) :=
   [ (bs "c14.raw", run_c14_raw);
     (bs "c14.reader", run_c14_reader);
     (bs "c14.writer", run_c14_writer);
-    (bs "c14.props", run_c14_props) ].
+    (bs "c14.props", run_c14_props);
+    (* the same scripts driven through TracingRoundTripper / TracingHandler (net/http plumbing) *)
+    (bs "c14.rt", run_c14_reader);
+    (bs "c14.handler", run_c14_writer) ].
